@@ -6,6 +6,7 @@ Inductive action :=
 | AEmit (t : text)                          (* add a text to the output *)
 | ALook                                     (* add what the printer sees of the state *)
 | ACall (o : nat) (inner : list action)     (* call hy-repr on object o, whose printer runs [inner]; add its text *)
+| ATry (o : nat) (inner : list action) (fallback : text)   (* the same inside try/except: on failure add [fallback] *)
 | ARaise.                                   (* raise *)
 
 Section Script.
@@ -27,6 +28,13 @@ Fixpoint compile_a (a : action) (k : text -> beh) (acc : text) : beh :=
                  | a' :: r => compile_a a' (fun acc1 => go r acc1) acc0
                  end) inner [])
            (fun t => k (acc ++ t))
+  | ATry o inner fb =>
+      CallCatch o ((fix go (l : list action) (acc0 : text) : beh :=
+                      match l with
+                      | [] => Done false (fun _ => acc0)
+                      | a' :: r => compile_a a' (fun acc1 => go r acc1) acc0
+                      end) inner [])
+                (fun r => k (acc ++ match r with Some t => t | None => fb end))
   | ARaise => Done true (fun _ => [])
   end.
 
